@@ -174,14 +174,25 @@ class Runner:
         if self.preface_sent or self.server_conn is None:
             return
         self.preface_sent = True
-        self.sp.initiate_connection()
-        if self.sc.get("swin"):
-            self.sp.update_settings({h2.settings.SettingCodes.INITIAL_WINDOW_SIZE: int(self.sc["swin"])})
-        data = self.sp.data_to_send()
         lim = int(self.sc.get("limit0", 0))
+        self._feed("s", [([{"k": "r_settings", "max": lim}], self._preface_bytes(lim))])
+
+    def _preface_bytes(self, lim: int) -> bytes:
+        """The server's first SETTINGS frame.  hyper-h2 would always announce MAX_CONCURRENT_STREAMS (its own default,
+        100); a server need not, so the frame is written by hand: the window size, and the limit only if the scenario
+        has one.  The peer object is still told that it sent its preface."""
+        import h2.settings
+        from hyperframe.frame import SettingsFrame
+
+        self.sp.initiate_connection()
+        win = int(self.sc.get("swin") or 0)
+        if win:
+            self.sp.update_settings({h2.settings.SettingCodes.INITIAL_WINDOW_SIZE: win})
+        self.sp.data_to_send()  # discarded: replaced by the hand-written frame below
+        settings = {SettingsFrame.INITIAL_WINDOW_SIZE: win or 65535}
         if lim:
-            data += self._settings_frame(lim)
-        self._feed("s", [([{"k": "r_settings", "max": lim}], data)])
+            settings[SettingsFrame.MAX_CONCURRENT_STREAMS] = lim
+        return SettingsFrame(0, settings=settings).serialize()
 
     @staticmethod
     def _settings_frame(n: int) -> bytes:
@@ -464,13 +475,8 @@ class Runner:
         pre = b""
         if not self.preface_sent:
             # the withheld preface goes out together with this SETTINGS frame
-            import h2.settings
-
             self.preface_sent = True
-            self.sp.initiate_connection()
-            if self.sc.get("swin"):
-                self.sp.update_settings({h2.settings.SettingCodes.INITIAL_WINDOW_SIZE: int(self.sc["swin"])})
-            pre = self.sp.data_to_send()
+            pre = self._preface_bytes(0)
         self._deliver("s", [{"k": "r_settings", "max": int(n)}], pre + self._settings_frame(int(n)), hold)
         return True
 
@@ -502,12 +508,16 @@ class Runner:
 
     def _open_windows(self):
         """Final drain: both peers raise SETTINGS_INITIAL_WINDOW_SIZE, which widens every current and future stream."""
+        import h2.exceptions
         import h2.settings
 
         for side, peer in (("c", self.cp), ("s", self.sp)):
             if side == "s" and not self.preface_sent:
                 continue
-            peer.update_settings({h2.settings.SettingCodes.INITIAL_WINDOW_SIZE: 1 << 20})
+            try:
+                peer.update_settings({h2.settings.SettingCodes.INITIAL_WINDOW_SIZE: 1 << 20})
+            except h2.exceptions.ProtocolError:
+                continue  # the proxy has terminated this connection
             data = peer.data_to_send()
             if data and not self.dead:
                 self._deliver(side, [{"k": "c_wu", "s": 0} if side == "c" else {"k": "r_wu", "t": 0}], data, False)
@@ -600,7 +610,7 @@ def random_scenario(sc: dict) -> list[dict]:
                         choices.append(("s", j, "rst"))
             if r.server_conn is not None and rng.random() < 0.12:
                 choices.append(("settings", rng.choice([1, 1, 2, 2, 3, 5])))
-            if sc.get("allow_close") and r.server_conn is not None and rng.random() < 0.03:
+            if sc.get("allow_close") and r.server_conn is not None and rng.random() < 0.08:
                 choices.append(("sclose",))
         if sc.get("cwin") or sc.get("swin"):
             for sid, n in r.unacked["c"].items():
@@ -668,9 +678,9 @@ def random_scenario(sc: dict) -> list[dict]:
             op = ["settings", ch[1], hold]
             ok = r.settings_op(ch[1], hold)
         else:
-            op = ["sclose"]
-            ok = r.sclose_op()
-            sclosed = True
+            ops.append(["sclose"])
+            r.sclose_op()
+            break  # a second upstream connection is not part of this harness
         ops.append(op)
         if not ok:
             break
@@ -725,7 +735,7 @@ class Check(core.PropertyCheck):
                           "client_reset_while_queued", "client_reset_while_upstream", "reset_upstream", "server_reset",
                           "reset_downstream", "proxy_error_response", "request_trailers", "response_trailers",
                           "flow_request", "flow_request_streamed", "flow_response", "flow_response_streamed",
-                          "flow_control", "in_flight_close")
+                          "flow_control", "in_flight_close", "server_closed_with_queue")
     REQUIRED_ACTIONS = ()
     ASSUMPTIONS = (
         "the two hyper-h2 peers owned by the harness decode what the proxy sends; HPACK / frame parsing is theirs",
@@ -745,9 +755,9 @@ class Check(core.PropertyCheck):
 
     def model_runs(self, ctx):
         if ctx.quick:
-            return [ctx.model_check(self.MODEL, _consts(QUICK_CONFIGS), dump=True)]
-        small = ctx.model_check(self.MODEL, _consts(QUICK_CONFIGS), dump=True)
-        big = ctx.model_check(self.MODEL, _consts(THOROUGH_CONFIGS), dump=False, tag="_big")
+            return [ctx.model_check(self.MODEL, _consts(QUICK_CONFIGS), dump=True, timeout=1200)]
+        small = ctx.model_check(self.MODEL, _consts(QUICK_CONFIGS), dump=True, timeout=1200)
+        big = ctx.model_check(self.MODEL, _consts(THOROUGH_CONFIGS), dump=False, tag="_big", timeout=3000)
         return [small, big]
 
     @staticmethod
@@ -804,6 +814,15 @@ class Check(core.PropertyCheck):
                                  "ps": {str(i): rng.random() < 0.4 for i in range(1, 13)},
                                  "cwin": rng.choice([1, 2, 3, 5]) if fc else 0,
                                  "swin": rng.choice([1, 2, 3, 5]) if fc and rng.random() < 0.7 else 0}, source="random")
+        # the server connection is lost while streams are open on it / waiting for it
+        yield core.Scenario({"limit0": 1, "late": False, "unit": 1, "cut": 1, "rs": {}, "ps": {},
+                             "ops": [["c", 1, "hdr_end"], ["c", 2, "hdr_end"], ["c", 3, "hdr_end"], ["sclose"]]}, source="suite")
+        for k in range(30 if ctx.quick else 600):
+            yield core.Scenario({"ops": None, "seed": rng.randrange(1 << 30), "n": rng.randint(2, 6), "steps": rng.randint(8, 40),
+                                 "limit0": rng.choice([1, 1, 2, 3]), "late": False, "cut": rng.randrange(1 << 30), "unit": 1,
+                                 "hold": rng.choice([0, 0.2]), "allow_close": True,
+                                 "rs": {str(i): rng.random() < 0.4 for i in range(1, 13)},
+                                 "ps": {str(i): rng.random() < 0.4 for i in range(1, 13)}, "cwin": 0, "swin": 0}, source="random")
         for k in range(6 if ctx.quick else 60):
             yield core.Scenario({"ops": None, "seed": rng.randrange(1 << 30), "n": 12, "steps": 90, "burst": True,
                                  "limit0": rng.choice([0, 3, 11]), "late": True, "cut": rng.randrange(1 << 30), "unit": 1,
